@@ -125,9 +125,13 @@ class SteadyDetonationReactionZone(ExactSolver):
 
         xvec_rel = np.empty_like(tvec) # initialize xvec_rel (position relative to shock front)
 
-        # Find index where t first equals or exceeds 1.0
-        if np.any(tvec >= 1.0):
-            it1 = np.where(tvec>=1.0)[0][0]
+        # Position and particle velocity at the end of the reaction zone
+        # (t = 1), whether or not tvec contains t = 1
+        g1 = np.sqrt(1 - 1.0 / self.f)
+        u1 = (1.0 - self.rho_0 / (self.rhoj * self.gamma / (self.gamma - g1)))*self.D
+        x1 = self.rho_0 * self.Dj / self.rhoj *\
+                ((1.0 - 1.0/self.gamma) + 1.0 /
+                        (2.0 * self.gamma))
 
         for i,t in enumerate(tvec):
             if t <= 1.0:
@@ -135,7 +139,7 @@ class SteadyDetonationReactionZone(ExactSolver):
                 ((1.0 - 1.0/self.gamma)*t + t**2 /
                         (2.0 * self.gamma))
             else:
-                xvec_rel[i] = xvec_rel[it1] + (self.D - uvec[it1]) * (t-1.0)
+                xvec_rel[i] = x1 + (self.D - u1) * (t-1.0)
 
         xvec_abs = self.D * tvec[-1] - xvec_rel   # Particle position in absolute coordinates
 
